@@ -619,8 +619,9 @@ Section StochRsi.
   Variables (p q : Z) (cs : list R).
   Hypothesis Hq : (1 <= q)%Z.
   (* the window-extremum characterisation of MovingMin / MovingMax needs the first q inputs - here RSI values -
-     to be non-zero (Prim/MovingMaxProofs.v, moving_min_zero_refuted: the ring buffer's zero fill is confused with
-     genuine zeros).  For RSI values this is a real restriction: the RSI is exactly 0 while no gain has occurred. *)
+     to be non-zero with the earlier code (the ring buffer's zero fill was confused with genuine zeros); the hypothesis
+     is no longer needed (section 3b) and is kept for the users of these statements.  For RSI values it is a real
+     restriction: the RSI is exactly 0 while no gain has occurred. *)
   Hypothesis Hnz : Forall (fun x => x <> 0) (firstn (Z.to_nat q) (rsi_out p cs)).
   Let Q := Z.to_nat q.
   Let rs := rsi_out p cs.
@@ -660,77 +661,30 @@ End StochRsi.
 
 (* ------------------------------------------------------------------------------------------ *)
 (* 3b. StochasticRsi without the non-zero hypothesis.
-       (i)  On an input stream of the shape 0 ... 0 y1 y2 ... (first q of the y's non-zero) the generated MovingMin /
-            MovingMax still bracket the current value: each leading zero is inserted and at once removed again as the
-            ring buffer's zero fill, which leaves the tree empty (min = max = 0 = value there).
-       (ii) The RSI stream has exactly this shape: RSI_j = 0 iff the average gain or (in the totalised model) the
-            average loss is 0, and for period >= 2 positive averages stay positive; for period 1 the RSI model value is
-            0 throughout. *)
+       MovingMin / MovingMax are the window minimum / maximum for all inputs (Prim/MovingMaxProofs.v, the [_all]
+       theorems), so they bracket the current value for every input stream.  (With the earlier code, which removed the
+       Shift's zero fill from the tree during warm-up, this needed the shape 0 ... 0 y1 y2 ... of the RSI stream shown
+       below: RSI_j = 0 iff the average gain or (in the totalised model) the average loss is 0, and for period >= 2
+       positive averages stay positive; for period 1 the RSI model value is 0 throughout.  The shape theorem is kept.) *)
 
-Lemma repeat_app_cons {A} (a : A) (n : nat) (l : list A) : repeat a n ++ a :: l = a :: repeat a n ++ l.
-Proof. induction n as [|n IH]; simpl; [reflexivity | rewrite IH; reflexivity]. Qed.
-
-Lemma zero_step_leaf : fst (remove R Rltb Reqb 0 (insert R Rleb 0 Leaf)) = Leaf.
-Proof. cbn [insert remove]. rewrite (proj2 (Reqb_true 0 0) eq_refl). reflexivity. Qed.
-
-Lemma op2st_zero_prefix (g : tree R -> R) (P k : nat) (ys : list R) :
-  s_op2st (stepf g) Leaf (repeat 0 k ++ ys) (repeat 0 P ++ repeat 0 k ++ ys)
-  = repeat (g Leaf) k ++ s_op2st (stepf g) Leaf ys (repeat 0 P ++ ys).
+(* MovingMin <= value <= MovingMax, for every input stream *)
+Theorem moving_min_le_value_le_moving_max_all {I} (q : Z) (e : expr I R) (env : list (list I)) :
+  (1 <= q)%Z ->
+  let mn := sem (trend_MovingMin_Compute (T:=R) (I:=I) (mk_trend_MovingMin q) e) env in
+  let mx := sem (trend_MovingMax_Compute (T:=R) (I:=I) (mk_trend_MovingMax q) e) env in
+  length mn = (length (sem e env) - (Z.to_nat q - 1))%nat /\
+  length mx = (length (sem e env) - (Z.to_nat q - 1))%nat /\
+  forall j, (j < length (sem e env) - (Z.to_nat q - 1))%nat ->
+    nth j mn 0 <= nth (Z.to_nat q - 1 + j) (sem e env) 0 <= nth j mx 0.
 Proof.
-  induction k as [|k IH]; [reflexivity|].
-  cbn [repeat app]. rewrite repeat_app_cons, stepf_cons, zero_step_leaf, IH. reflexivity.
+  intros Hq mn mx. unfold mn, mx.
+  rewrite moving_max_is_window_max_expr_all, moving_min_is_window_min_expr_all by exact Hq.
+  rewrite !tab_length. split; [reflexivity|]. split; [reflexivity|].
+  intros j Hj. rewrite !tab_nth by exact Hj.
+  split; [apply wmin_le | apply wmax_ge]; lia.
 Qed.
 
-Lemma tmin_spec : forall (t : tree R) (m : list R),
-  bst_ok R Rleb t -> Permutation (elements R t) m -> tmin R 0 t = Rlist_min m.
-Proof.
-  intros t m Hok Hperm. rewrite <- list_min_Rlist_min.
-  apply (tmin_list_min R 0 Rleb Rltb Reqb total_order_R); assumption.
-Qed.
-Lemma tmax_spec : forall (t : tree R) (m : list R),
-  bst_ok R Rleb t -> Permutation (elements R t) m -> tmax R 0 t = Rlist_max m.
-Proof.
-  intros t m Hok Hperm. rewrite <- list_max_Rlist_max.
-  apply (tmax_list_max R 0 Rleb Rltb Reqb total_order_R); assumption.
-Qed.
-
-Section ZeroPrefix.
-  Variables (Q k : nat) (ys : list R).
-  Hypothesis HQ : (1 <= Q)%nat.
-  Hypothesis Hnz : Forall (fun x => x <> 0) (firstn Q ys).
-  Let xs := repeat 0 k ++ ys.
-
-  Lemma run_zero_prefix (g : tree R -> R) (G : list R -> R) :
-    (forall t m, bst_ok R Rleb t -> Permutation (elements R t) m -> g t = G m) ->
-    s_op2st (stepf g) Leaf xs (repeat 0 Q ++ xs)
-    = repeat (g Leaf) k ++ map (fun i => G (W ys Q (S i))) (seq 0 (length ys)).
-  Proof.
-    intros gG. unfold xs. rewrite op2st_zero_prefix. f_equal.
-    pose proof (run_from ys Q HQ Hnz g G gG ys 0 Leaf eq_refl I) as H. simpl skipn in H.
-    apply H. unfold W. simpl. apply perm_nil.
-  Qed.
-
-  Lemma W_has_current i : In (at_ ys i) (W ys Q (S i)).
-  Proof. unfold W. apply in_map. apply in_seq. lia. Qed.
-
-  Lemma value_between_zero_prefix i : (i < length xs)%nat ->
-    nth i (s_op2st (stepf (tmin R 0)) Leaf xs (repeat 0 Q ++ xs)) 0 <= nth i xs 0
-    <= nth i (s_op2st (stepf (tmax R 0)) Leaf xs (repeat 0 Q ++ xs)) 0.
-  Proof.
-    intros Hi. rewrite (run_zero_prefix (tmin R 0) Rlist_min tmin_spec), (run_zero_prefix (tmax R 0) Rlist_max tmax_spec).
-    unfold xs in *. rewrite app_length, repeat_length in Hi.
-    destruct (Nat.lt_ge_cases i k) as [Hk|Hk].
-    - rewrite !app_nth1 by (rewrite repeat_length; exact Hk). rewrite !nth_repeat. simpl. lra.
-    - rewrite !app_nth2 by (rewrite repeat_length; exact Hk). rewrite !repeat_length.
-      rewrite (map_nth_lt (fun i => Rlist_min (W ys Q (S i))) _ (i - k) 0%nat 0) by (rewrite seq_length; lia).
-      rewrite (map_nth_lt (fun i => Rlist_max (W ys Q (S i))) _ (i - k) 0%nat 0) by (rewrite seq_length; lia).
-      rewrite seq_nth by lia. cbn [Nat.add].
-      split; [apply Rlist_min_le | apply Rlist_max_ge]; apply (W_has_current (i - k)).
-  Qed.
-End ZeroPrefix.
-
-(* MovingMin <= value <= MovingMax for an input stream of the shape 0 ... 0 y1 y2 ... with the first q of the y's
-   non-zero: the leading zeros cancel against the ring buffer's zero fill and leave the tree empty. *)
+(* the earlier statement for an input stream of the shape 0 ... 0 y1 y2 ... with the first q of the y's non-zero *)
 Theorem moving_min_le_value_le_moving_max_zero_prefix {I} (q : Z) (e : expr I R) (env : list (list I))
     (k : nat) (ys : list R) :
   (1 <= q)%Z -> sem e env = repeat 0 k ++ ys -> Forall (fun x => x <> 0) (firstn (Z.to_nat q) ys) ->
@@ -740,17 +694,7 @@ Theorem moving_min_le_value_le_moving_max_zero_prefix {I} (q : Z) (e : expr I R)
   length mx = (length (sem e env) - (Z.to_nat q - 1))%nat /\
   forall j, (j < length (sem e env) - (Z.to_nat q - 1))%nat ->
     nth j mn 0 <= nth (Z.to_nat q - 1 + j) (sem e env) 0 <= nth j mx 0.
-Proof.
-  intros Hq E Hnz mn mx. set (xs := sem e env) in *.
-  assert (Emn : mn = skipn (Z.to_nat q - 1) (s_op2st (stepf (tmin R 0)) Leaf xs (repeat 0 (Z.to_nat q) ++ xs))).
-  { replace (Z.to_nat q - 1)%nat with (Z.to_nat (q - 1)) by lia. reflexivity. }
-  assert (Emx : mx = skipn (Z.to_nat q - 1) (s_op2st (stepf (tmax R 0)) Leaf xs (repeat 0 (Z.to_nat q) ++ xs))).
-  { replace (Z.to_nat q - 1)%nat with (Z.to_nat (q - 1)) by lia. reflexivity. }
-  rewrite Emn, Emx. rewrite !skipn_length, !s_op2st_length, app_length, repeat_length.
-  split; [lia|]. split; [lia|]. intros j Hj.
-  rewrite !Prim.SeededProofs.nth_skipn_plus. rewrite E.
-  apply value_between_zero_prefix; [lia | exact Hnz | rewrite <- E; lia].
-Qed.
+Proof. intros Hq _ _. exact (moving_min_le_value_le_moving_max_all q e env Hq). Qed.
 
 Lemma zero_prefix_shape (l : list R) :
   (forall j, (S j < length l)%nat -> nth j l 0 <> 0 -> nth (S j) l 0 <> 0) ->
@@ -916,9 +860,7 @@ Theorem stochrsi_bracket (p q : Z) (cs : list R) : (1 <= p)%Z -> (1 <= q)%Z ->
   forall j, (j < length (rsi_out p cs) - (Z.to_nat q - 1))%nat ->
     nth j (stochrsi_min p q cs) 0 <= nth (Z.to_nat q - 1 + j) (rsi_out p cs) 0 <= nth j (stochrsi_max p q cs) 0.
 Proof.
-  intros Hp Hq. destruct (rsi_zero_prefix_shape p cs Hp) as (k & ys & E & Hys).
-  exact (moving_min_le_value_le_moving_max_zero_prefix q (rsi_expr p) [cs] k ys Hq E
-           (Forall_firstn_of _ (Z.to_nat q) ys Hys)).
+  intros _ Hq. exact (moving_min_le_value_le_moving_max_all q (rsi_expr p) [cs] Hq).
 Qed.
 
 Theorem stochrsi_length_all (p q : Z) (cs : list R) : (1 <= p)%Z -> (1 <= q)%Z ->
@@ -1133,8 +1075,8 @@ Proof. intros p hs ls cs vs Hp Hlc Hch Hlv Hv. exact (cmf_range_model p hs ls cs
 (* 3. Stochastic RSI in [0, 1]; RSI period p, paired MovingMin / MovingMax windows of one size q.  Reported position j
       is RSI position (Q-1)+j; exempt: positions where max RSI - min RSI = 0.
       First form, in the style of C15_StochasticOscillator_K: under the hypothesis (needed by the window-extremum
-      characterisation of Prim/MovingMaxProofs.v) that the first q RSI values are non-zero - a real restriction, the RSI
-      is exactly 0 while no gain has occurred. *)
+      characterisation of the earlier MovingMin / MovingMax code; no longer needed, statement kept) that the first q
+      RSI values are non-zero - a real restriction, the RSI is exactly 0 while no gain has occurred. *)
 Theorem C15_StochasticRsi : forall (p q : Z) (cs : list R), (1 <= q)%Z ->
   let rsi := momentum_Rsi_Compute (T:=R) (I:=R) (mk_momentum_Rsi (mk_trend_Rma p)) (EIn 0) in
   let out := sem (momentum_StochasticRsi_Compute (T:=R) (I:=R)
@@ -1151,9 +1093,8 @@ Proof.
   - exact (stochrsi_length p q cs Hq Hnz).
   - exact (stochrsi_range_pos p q cs Hq Hnz).
 Qed.
-(* Second form: no hypothesis on the RSI values at all (the zeros of an RSI stream form a prefix, on which the
-   generated MovingMin / MovingMax both report 0).  Where the RSI's own denominator (the average loss) is 0 the RSI
-   value is the totalised model's, as in C15_Rsi_model. *)
+(* Second form: no hypothesis on the RSI values at all (MovingMin / MovingMax are the window extrema for all inputs).
+   Where the RSI's own denominator (the average loss) is 0 the RSI value is the totalised model's, as in C15_Rsi_model. *)
 Theorem C15_StochasticRsi_all_inputs : forall (p q : Z) (cs : list R), (1 <= p)%Z -> (1 <= q)%Z ->
   let rsi := momentum_Rsi_Compute (T:=R) (I:=R) (mk_momentum_Rsi (mk_trend_Rma p)) (EIn 0) in
   let out := sem (momentum_StochasticRsi_Compute (T:=R) (I:=R)
